@@ -35,6 +35,9 @@ func runC06(p *core.Program, r *core.Report) {
 	c06R3(p, r)
 	c06R4(p, r)
 	c06R5(p, r)
+	// R7: effective tags are what the tag extractor makes of the comment lines: its key/value split is part of
+	// "an effective gengo:<name> tag decides"
+	chainRules(p, r, "R7", "C12", []string{"C12.R4"}, "tag lines are classified once and split at the first '=' or space")
 }
 
 func c06R1(p *core.Program, r *core.Report) {
@@ -206,6 +209,36 @@ func c06R1(p *core.Program, r *core.Report) {
 		}
 		r.Check(enOK, rule, f, spec.what+" is invoked only when the generator is enabled by the type's own effective tags", cs.Call.Pos(), "dominated by IsGeneratorEnabled(g, tags), tags, _ := c.Doc(x.Obj())",
 			spec.what+" is not guarded by IsGeneratorEnabled(g, tags-of-this-type): disabled types are generated (or another type's tags decide)")
+		// ... and for every enabled type: nothing else decides whether the dispatcher is reached. The conditions on the
+		// way are the kind of the entry, IsGeneratorEnabled, the error of an earlier dispatch and the nil guard of the package.
+		for _, fct := range g.FactsAt(at) {
+			if fct.Tag != nil {
+				continue // arms of the type switch
+			}
+			c := ast.Unparen(fct.Cond)
+			if ec := core.AsCall(info, c, enabled); ec != nil {
+				continue
+			}
+			if v := core.VarOf(info, c); v != nil && isBasicKind(v.Type(), types.Bool) {
+				if d, ok := core.SingleDef(info, f.Body, v); ok && d.Index == 1 {
+					if _, isTA := ast.Unparen(d.Rhs).(*ast.TypeAssertExpr); isTA {
+						continue
+					}
+				}
+			}
+			if b, ok := c.(*ast.BinaryExpr); ok && (b.Op == token.EQL || b.Op == token.NEQ) {
+				if id, isNil := ast.Unparen(b.Y).(*ast.Ident); isNil && id.Name == "nil" {
+					if v := core.VarOf(info, b.X); v != nil && isErrorType(v.Type()) {
+						continue
+					}
+					if fld := core.FieldOf(info, b.X); fld != nil && core.NamedTypeName(fld.Type()) == core.G("pkg/types.Package") {
+						continue
+					}
+				}
+			}
+			r.Bad(rule, f, spec.what+" is invoked for every enabled type: no further condition on the way to the dispatcher", fct.Cond.Pos(),
+				"the dispatch of "+spec.what+" also depends on `"+core.ExprStr(fct.Cond)+"` ("+boolStr(fct.Val)+"): a type whose effective tags enable the generator is not generated when this condition fails (e.g. a package-wide shortcut that looks at the tags differently from IsGeneratorEnabled)")
+		}
 		if spec.arm == "go/types.Alias" {
 			// the generator is known to implement AliasGenerator (comma-ok or single-type clause)
 			asrt := false
